@@ -2,9 +2,11 @@ import AioslskVerif.Proofs.Conn
 /-!
 # C10 — connection life cycle is monotone and the connection registry is exact
 
-Property theorems only (model: `Model/Conn.lean`, helpers: `Proofs/Conn.lean`).  The model is the code
-**with** `fixes/C10-accept-connected-first.patch`, `fixes/C10-connect-cancel-or-closed.patch` and
-`fixes/C11-attempt-cleanup.patch` applied.
+Property theorems only (model: `Model/Conn.lean`, helpers: `Proofs/Conn.lean`, `Proofs/ConnBase.lean`,
+`Proofs/ConnTable1..8.lean`).  The model is the code **with** `fixes/C10-accept-connected-first.patch`,
+`fixes/C10-connect-cancel-or-closed.patch`, `fixes/C11-attempt-cleanup.patch`,
+`fixes/C16-disconnect-releases-stream-first.patch`, `fixes/C16-closing-cancellation-arrives-before-closed.patch`,
+`fixes/C10-accepted-registered-when-reported.patch` and `fixes/C10-connecting-notification-cancel.patch` applied.
 
 `run ops` is the net after any list of operations: connections created by a direct attempt, a
 connect-back, an accept, or the server connection; and, addressed to any of them in any order: the
@@ -14,8 +16,14 @@ undecodable), frames, partial frame, EOF, reset, read timeout, `disconnect()` ca
 time, with any close reason), `wait_closed` returning late, sends that succeed / block / fail / time out, and
 messages queued with `queue_message` (fire-and-forget tasks that `disconnect` cancels): going out at once,
 held back in `drain()` while the connection is closed by anybody, failing or timing out themselves (the queued
-task then closes the connection and is cancelled by its own `disconnect`).  Every state of
-`run ops` is a quiescent point.  `c.evs` is what was observable for connection `c`, in order.
+task then closes the connection and is cancelled by its own `disconnect`), the raw data calls of file
+connections (`send_data`, `receive_data`, raw bytes) — and **every state notification as a step of its own**
+(`Op.newF`, `Op.atF`): after CONNECTING / CONNECTED / CLOSING / CLOSED has been reported the task that reported it
+waits for the listeners (`noteA` / `noteC`: they are done; `parkA` / `parkC`: one of them suspends), and all of the
+above may be delivered in between — the connect completing while a listener of CLOSING is suspended, a `disconnect()`
+from inside the CONNECTED notification of an accepted connection, cancellation of the attempt inside a
+notification, ….  `Op.new` / `Op.at` are the special case in which no listener suspends.  Every state of `run ops`
+is a quiescent point.  `c.evs` is what was observable for connection `c`, in order.
 -/
 namespace AioslskVerif.C10
 open AioslskVerif.Conn
@@ -75,10 +83,11 @@ theorem C10_no_delivery_after_closed (ops : List Op) (c : Conn) (hc : c ∈ (run
     · exact (track_closed hp post c.k.st h).2.1
     · cases h
 
-/-- After CLOSED no send reaches the socket. -/
+/-- After CLOSED no send reaches the socket: no bytes of a message (`send_message`, `queue_message`) and no raw data
+of a file connection (`send_data`). -/
 theorem C10_no_send_after_closed (ops : List Op) (c : Conn) (hc : c ∈ (run ops).conns)
     (hp : c.k.origin ≠ .server) (pre post : List Ev) (r : Reason) (he : c.evs = pre ++ Ev.st .closed r :: post) :
-    Ev.wrote ∉ post := by
+    Ev.wrote ∉ post ∧ Ev.wroteRaw ∉ post := by
   have h := (inv_run ops c hc).hist
   rw [he, track_append] at h
   cases h1 : track c.k.origin .uninit pre with
@@ -86,7 +95,21 @@ theorem C10_no_send_after_closed (ops : List Op) (c : Conn) (hc : c ∈ (run ops
   | some s1 =>
     simp only [h1, Option.bind_some, track] at h
     split at h
-    · exact (track_closed hp post c.k.st h).2.2
+    · exact ⟨(track_closed hp post c.k.st h).2.2.1, (track_closed hp post c.k.st h).2.2.2.1⟩
+    · cases h
+
+/-- After CLOSED no `receive_data` call hands out data of the connection. -/
+theorem C10_no_raw_data_after_closed (ops : List Op) (c : Conn) (hc : c ∈ (run ops).conns)
+    (hp : c.k.origin ≠ .server) (pre post : List Ev) (r : Reason) (he : c.evs = pre ++ Ev.st .closed r :: post) :
+    Ev.recvData ∉ post := by
+  have h := (inv_run ops c hc).hist
+  rw [he, track_append] at h
+  cases h1 : track c.k.origin .uninit pre with
+  | none => simp [h1] at h
+  | some s1 =>
+    simp only [h1, Option.bind_some, track] at h
+    split at h
+    · exact (track_closed hp post c.k.st h).2.2.2.2
     · cases h
 
 /-- Stronger form of the two previous theorems (any connection, the server included): a message is
@@ -107,6 +130,29 @@ theorem C10_io_only_while_connected (ops : List Op) (c : Conn) (hc : c ∈ (run 
     | none => rw [hs, hs1] at hl; cases hl
     | some x => rw [hs, hs1] at hl; simp only [Option.getD_some] at hl; rw [← hl]
 
+/-- The raw data paths of a file connection have no `_is_closing` guard: data is written / handed out while the last
+reported state is CONNECTED or CLOSING (a `send_data` made while a listener of the CLOSING notification is still
+running does reach the socket), never before and never after. -/
+theorem C10_raw_io_only_while_open (ops : List Op) (c : Conn) (hc : c ∈ (run ops).conns)
+    (pre post : List Ev) (e : Ev) (he : c.evs = pre ++ e :: post) (hio : e = .wroteRaw ∨ e = .recvData) :
+    (states pre).getLast? = some .connected ∨ (states pre).getLast? = some .closing := by
+  have h := (inv_run ops c hc).hist
+  rw [he, track_append] at h
+  cases h1 : track c.k.origin .uninit pre with
+  | none => simp [h1] at h
+  | some s1 =>
+    have hl := track_last c.k.origin pre .uninit s1 h1
+    have hs1 : s1 = .connected ∨ s1 = .closing := by
+      rcases hio with rfl | rfl <;> simp only [h1, Option.bind_some, track] at h <;> split at h <;>
+        first | assumption | cases h
+    cases hs : (states pre).getLast? with
+    | none => rw [hs] at hl; rcases hs1 with hs1 | hs1 <;> rw [hs1] at hl <;> cases hl
+    | some x =>
+      rw [hs] at hl; simp only [Option.getD_some] at hl
+      rcases hs1 with hs1 | hs1
+      · left; rw [← hl, hs1]
+      · right; rw [← hl, hs1]
+
 /-- At every quiescent point the registry holds exactly the peer connections that are not CLOSED and
 are open (socket open or still closing) or being opened by a still-running attempt. -/
 theorem C10_registry_exact (ops : List Op) (c : Conn) (hc : c ∈ (run ops).conns) :
@@ -116,7 +162,7 @@ theorem C10_registry_exact (ops : List Op) (c : Conn) (hc : c ∈ (run ops).conn
   have hl := track_last c.k.origin c.evs .uninit c.k.st hi.hist
   have hg := hi.good
   have key := (good_facts hg).1
-  have hne : c.k.st ≠ .uninit := (good_facts hg).2.2
+  have hne : c.k.st ≠ .uninit := (good_facts hg).2.2.1
   rw [key]
   have : c.k.st ≠ .closed ↔ (states c.evs).getLast? ≠ some .closed := by
     cases hs : (states c.evs).getLast? with
@@ -170,40 +216,74 @@ theorem C10_server_restart_only (ops : List Op) (c : Conn) (hc : c ∈ (run ops)
         · cases h
     · cases h
 
-/-- Output pending on the socket (a direct `send_message` or a queued message parked in `drain()`) and a parked
-reader exist only while the connection is CONNECTED: once CLOSING (or CLOSED) is the last reported state nothing
-of the connection is left waiting on the socket — whoever closed it, and whatever was queued at that moment. -/
+/-- Output pending on the socket (a direct send or a queued message parked in `drain()`) and a parked reader exist
+only while the connection is CONNECTED, or CLOSING with the listeners of that notification still running (`disconnect`
+has not got to the writer yet): once `disconnect` is past its CLOSING notification nothing of the connection is left
+waiting on the socket — whoever closed it, and whatever was queued at that moment. -/
 theorem C10_nothing_pending_unless_connected (ops : List Op) (c : Conn) (hc : c ∈ (run ops).conns)
-    (hs : (states c.evs).getLast? ≠ some .connected) :
+    (hs : (states c.evs).getLast? ≠ some .connected) (hn : c.k.closingNotified = false) :
     c.k.sendParked = false ∧ c.k.qParked = false ∧ c.k.reader = false := by
   have hi := inv_run ops c hc
   have hl := track_last c.k.origin c.evs .uninit c.k.st hi.hist
-  refine good_parked hi.good fun hst => hs ?_
+  refine good_parked hi.good (fun hst => hs ?_) hn
   cases hg : (states c.evs).getLast? with
   | none => rw [hg, hst] at hl; cases hl
   | some x => rw [hg, hst] at hl; simp only [Option.getD_some] at hl; rw [← hl]
 
 /-- CLOSED is final for a peer connection, step by step: whatever is addressed to a CLOSED peer connection — a
-late connect result, frames, EOF, further `disconnect` / `send_message` / `queue_message` calls — it stays CLOSED
-and unregistered, and nothing is reported, delivered or written. -/
-theorem C10_closed_is_final (k k' : K) (op : COp) (out : List Ev) (hg : good k = true)
-    (hp : k.origin ≠ .server) (hc : k.st = .closed) (h : stepK k op = some (k', out)) :
-    k'.st = .closed ∧ states out = [] ∧ Ev.delivered ∉ out ∧ Ev.wrote ∉ out ∧ k'.registered = false := by
+late connect result, frames, EOF, further `disconnect` / `send_message` / `queue_message` / `send_data` calls, the
+listeners of CLOSED returning or suspending — it stays CLOSED and unregistered, its socket stays released, and
+nothing is reported, delivered, written or handed out. -/
+theorem C10_closed_is_final (k k' : K) (op : FOp) (out : List Ev) (hg : good k = true)
+    (hp : k.origin ≠ .server) (hc : k.st = .closed) (h : stepF k op = some (k', out)) :
+    k'.st = .closed ∧ states out = [] ∧ Ev.delivered ∉ out ∧ Ev.wrote ∉ out ∧ Ev.wroteRaw ∉ out ∧
+      Ev.recvData ∉ out ∧ k'.registered = false ∧ k'.sock = false := by
   obtain ⟨hg', ht, ho, _⟩ := step_ok hg h
   rw [hc] at ht
-  obtain ⟨h1, h2, h3⟩ := track_closed hp out k'.st ht
+  obtain ⟨h1, h2, h3, h4, h5⟩ := track_closed hp out k'.st ht
   have hl := track_last k.origin out .closed k'.st ht
   rw [h1] at hl
   simp only [List.getLast?_nil, Option.getD_none] at hl
-  refine ⟨hl, h1, h2, h3, ?_⟩
+  refine ⟨hl, h1, h2, h3, h4, h5, ?_, (good_facts hg').2.2.2 hl⟩
   cases hr : k'.registered with
   | false => rfl
   | true => exact absurd hl ((good_facts hg').1.mp hr).2.1
 
 /-- … in particular a second `connect()` on a peer connection object is not a step of the model at all (the
 server connection is the only one that is ever connected again). -/
-theorem C10_peer_never_reconnects (k : K) (hp : k.origin ≠ .server) : stepK k .restart = none := by
-  simp [stepK, hp]
+theorem C10_peer_never_reconnects (k : K) (hp : k.origin ≠ .server) : stepF k (.op .restart) = none := by
+  simp [stepF, stepOp, hp]
+
+/-- A socket that arrives late is dropped: when `open_connection` returns and the connection is no longer CONNECTING
+— `disconnect()` was called meanwhile, whether it is already CLOSED or a listener of its CLOSING notification is still
+running — nothing is reported, the socket is not attached and the state does not move (the attempt fails). -/
+theorem C10_late_socket_dropped (k k' : K) (m : SendMode) (out : List Ev) (ha : k.att = .opening)
+    (hs : k.st ≠ .connecting) (h : stepF k (.op (.connectOk m)) = some (k', out)) :
+    states out = [] ∧ k'.st = k.st ∧ k'.sock = k.sock ∧ k'.registered = k.registered ∧ Ev.attRes .fail ∈ out := by
+  simp only [stepF, stepOp, ha, ne_eq, not_true_eq_false, if_false, hs, not_false_eq_true, if_true,
+    Option.some.injEq, attemptOver, Prod.mk.injEq] at h
+  obtain ⟨rfl, rfl⟩ := h
+  refine ⟨?_, rfl, rfl, rfl, by simp⟩
+  split <;> simp [states]
+
+/-- While the listeners of a state notification are running the registry is already right: an accepted connection is
+registered from the moment CONNECTED is reported (before `on_peer_accepted` has run), and a connection is out of the
+registry from the moment CLOSED is reported (before `disconnect()` has returned).  (Instances of `C10_registry_exact`,
+which holds at every step, spelt out for the two notifications.) -/
+theorem C10_registry_right_inside_notifications (ops : List Op) (c : Conn) (hc : c ∈ (run ops).conns)
+    (hp : c.k.origin ≠ .server) :
+    (c.k.att = .noteConnected → c.k.st = .connected → c.k.registered = true) ∧
+      (c.k.closer ≠ .none → c.k.cph = .noteClosed → c.k.registered = false) := by
+  have hi := inv_run ops c hc
+  have hf := good_facts hi.good
+  refine ⟨fun _ hst => hf.1.mpr ⟨hp, by rw [hst]; decide, ?_⟩, fun hcl hph => ?_⟩
+  · cases hl : c.k.live with
+    | true => rfl
+    | false => have := hf.2.1 hl; rw [hst] at this; cases this
+  · have hst := good_noteClosed hi.good hcl hph
+    cases hr : c.k.registered with
+    | false => rfl
+    | true => exact absurd hst (hf.1.mp hr).2.1
 
 /-! Non-vacuity: concrete reachable histories. -/
 
@@ -217,20 +297,51 @@ example : (run [.new .direct false false, .at 0 .cancelAttempt]).conns.map (fun 
 example : (run [.new .direct false false, .at 0 (.disconnect .requested), .at 0 (.connectOk .ok)]).conns.map
     (fun c => (c.evs, c.k.sock, c.k.registered)) =
     [([.st .connecting .unknown, .st .closing .requested, .st .closed .requested, .attRes .fail], false, false)] := by decide
+-- … the same with the socket opening WHILE a listener of the CLOSING notification is suspended (hypotheses of
+-- C10_late_socket_dropped): CONNECTING, CLOSING, then CLOSED when the listener returns; never CONNECTED
+example : (run [.new .direct false false, .atF 0 (.op (.disconnect .requested)), .atF 0 .parkC,
+    .atF 0 (.op (.connectOk .ok)), .atF 0 .noteC, .atF 0 .noteC]).conns.map
+    (fun c => (c.evs, c.k.sock, c.k.registered, c.k.closer)) =
+    [([.st .connecting .unknown, .st .closing .requested, .attRes .fail, .st .closed .requested], false, false, .none)] := by
+  decide
+-- an accepted connection is registered while the listeners of its CONNECTED notification run; one of them closes it
+-- from inside the notification; `on_peer_accepted` then finds it closed: CONNECTED, CLOSING, CLOSED, registry empty
+example : (run [.newF .incoming false false]).registry = [0] := by decide
+example : (run [.newF .incoming false false, .atF 0 .parkA, .at 0 (.disconnect .requested), .atF 0 (.noteA .ok)]).conns.map
+    (fun c => (states c.evs, c.k.registered, c.k.att, c.k.live)) =
+    [([.connected, .closing, .closed], false, .idle, false)] := by decide
+-- a connect-back attempt cancelled while a listener of its CONNECTING notification is suspended ends CLOSED
+example : (run [.newF .back false false, .atF 0 .parkA, .at 0 .cancelAttempt]).conns.map
+    (fun c => (c.evs, c.k.registered, c.k.live)) =
+    [([.st .connecting .unknown, .st .closing .connectFailed, .st .closed .connectFailed, .attRes .cancelled], false, false)] := by
+  decide
 -- established connection delivers, then two concurrent disconnect calls while wait_closed is slow, a send is skipped
 example : (run [.new .incoming false true, .at 0 (.firstFrame .initP), .at 0 (.frame true), .at 0 (.disconnect .requested),
     .at 0 (.disconnect .requested), .at 0 (.send .ok), .at 0 .closeDone]).conns.map (fun c => (c.evs, c.k.registered, c.k.live)) =
-    [([.st .connected .unknown, .init false, .delivered, .st .closing .requested, .sendRes true, .st .closed .unknown],
+    [([.st .connected .unknown, .init false, .delivered, .st .closing .requested, .sendRes true, .st .closed .requested],
       false, false)] := by decide
 -- a queued message is held back in drain() when a disconnect is requested and a second disconnect (here: EOF seen by
 -- the reader is not even enabled any more) follows: CLOSING, CLOSED once; the queued task ends cancelled
 example : (run [.new .direct false false, .at 0 (.connectOk .ok), .at 0 (.queue .block), .at 0 (.disconnect .requested),
     .at 0 (.disconnect .eof), .at 0 .eof]).conns.map (fun c => (c.evs.drop 5, c.k.qParked, c.k.registered)) =
-    [([.wrote, .st .closing .requested, .st .closed .requested, .queueRes .cancelled], false, false)] := by decide
+    [([.wrote, .st .closing .requested, .queueRes .cancelled, .st .closed .requested], false, false)] := by decide
 -- the queued send itself times out while wait_closed is slow: its own disconnect cancels it, CLOSED comes at once
 example : (run [.new .incoming false true, .at 0 (.firstFrame .initP), .at 0 (.queue .block), .at 0 .queueTimeout]).conns.map
     (fun c => (c.evs.drop 2, c.k.live)) =
     [([.wrote, .st .closing .timeout, .st .closed .timeout, .queueRes .cancelled], false)] := by decide
+-- file connection: send_data while a listener of CLOSING is suspended still reaches the socket (CLOSING is the last
+-- reported state: hypotheses of C10_raw_io_only_while_open), after CLOSED it raises and a receive_data gets nothing
+example : (run [.new .direct true false, .at 0 (.connectOk .ok), .atF 0 (.op (.disconnect .requested)), .atF 0 .parkC,
+    .atF 0 (.op (.sendData .ok)), .atF 0 .noteC, .atF 0 .parkC, .atF 0 (.op (.sendData .ok)), .atF 0 (.op .recvData),
+    .atF 0 .noteC]).conns.map (fun c => (c.evs.drop 5, c.k.reader, c.k.sock)) =
+    [([.st .closing .requested, .wroteRaw, .sendRes true, .st .closed .requested, .sendRes false], false, false)] := by decide
+-- a parked reader and a parked send survive while the CLOSING listeners run (C10_nothing_pending_unless_connected needs
+-- its second hypothesis) and are gone once `disconnect` is past the notification
+example : ((run [.new .direct false true, .at 0 (.connectOk .ok), .at 0 (.send .block), .atF 0 (.op (.disconnect .requested))]).conns.map
+    (fun c => (c.k.reader, c.k.sendParked, c.k.closingNotified)),
+    (run [.new .direct false true, .at 0 (.connectOk .ok), .at 0 (.send .block), .atF 0 (.op (.disconnect .requested)),
+      .atF 0 .noteC]).conns.map (fun c => (c.k.reader, c.k.sendParked, c.k.closingNotified))) =
+    ([(true, true, true)], [(false, false, false)]) := by decide
 -- the server connection does restart
 example : (run [.new .server false false, .at 0 (.connectOk .ok), .at 0 .eof, .at 0 .restart]).conns.map
     (fun c => states c.evs) = [[.connecting, .connected, .closing, .closed, .connecting]] := by decide
